@@ -42,6 +42,11 @@ type site struct {
 }
 
 var sites []site
+
+// files whose every statement is a preemption point (not only function,
+// closure and loop entries): used where torn multi-statement updates of a
+// shared structure matter (C16's IgnoreSet)
+var stmtFiles = map[string]bool{}
 var mapRangeCandidates []string
 
 const simrtImport = `github.com/a14e/gogreement/src/simrt`
@@ -49,7 +54,13 @@ const simrtImport = `github.com/a14e/gogreement/src/simrt`
 func main() {
 	src := flag.String("src", "/repo", "")
 	dst := flag.String("dst", "", "")
+	stmt := flag.String("stmt-files", "", "comma-separated files (relative to the repository root) that get a yield before every statement")
 	flag.Parse()
+	for _, f := range strings.Split(*stmt, ",") {
+		if f != "" {
+			stmtFiles[f] = true
+		}
+	}
 	if *dst == "" {
 		fatal("need -dst")
 	}
@@ -150,8 +161,35 @@ func instrumentFile(path, rel, out string) {
 		}
 		return nil, ""
 	}
+	stmtLevel := stmtFiles[rel]
+	yieldBefore := func(list []ast.Stmt) {
+		if !stmtLevel {
+			return
+		}
+		for i, st := range list {
+			if i == 0 {
+				continue // the block entry already yields (or belongs to a case clause: handled below)
+			}
+			switch st.(type) {
+			case *ast.LabeledStmt, *ast.CaseClause, *ast.CommClause:
+				continue
+			}
+			add(off(st.Pos()), fmt.Sprintf("simrt.Yield(%d); ", newSite(st.Pos(), "stmt")))
+		}
+	}
 	ast.Inspect(f, func(n ast.Node) bool {
 		switch x := n.(type) {
+		case *ast.BlockStmt:
+			yieldBefore(x.List)
+		case *ast.CaseClause:
+			if stmtLevel && len(x.Body) > 0 {
+				add(off(x.Body[0].Pos()), fmt.Sprintf("simrt.Yield(%d); ", newSite(x.Body[0].Pos(), "case")))
+			}
+			yieldBefore(x.Body)
+		case *ast.IfStmt:
+			if stmtLevel && len(x.Body.List) > 0 {
+				add(off(x.Body.Lbrace)+1, fmt.Sprintf(" simrt.Yield(%d);", newSite(x.Body.Lbrace, "if-body")))
+			}
 		case *ast.FuncDecl:
 			if x.Body != nil {
 				yieldAt(x.Body.Lbrace, "func "+x.Name.Name)
